@@ -72,21 +72,34 @@ func ToStringKey(values ...interface{}) string {
 
 		switch v := value.(type) {
 		case string:
-			results[idx] = v
+			results[idx] = escapeKeyPart(v)
 		case []byte:
-			results[idx] = string(v)
+			results[idx] = escapeKeyPart(string(v))
 		case uint:
 			results[idx] = strconv.FormatUint(uint64(v), 10)
 		default:
 			results[idx] = "nil"
 			vv := reflect.ValueOf(v)
 			if vv.IsValid() && !vv.IsZero() {
-				results[idx] = fmt.Sprint(reflect.Indirect(vv).Interface())
+				results[idx] = escapeKeyPart(fmt.Sprint(reflect.Indirect(vv).Interface()))
 			}
 		}
 	}
 
 	return strings.Join(results, "_")
+}
+
+// escapeKeyPart keeps the joined key unambiguous: the separator (and the escape character) inside a
+// part is escaped, and a part spelled "nil" is told apart from a nil value.
+func escapeKeyPart(s string) string {
+	if s == "nil" {
+		return `\nil`
+	}
+	if strings.ContainsAny(s, `\_`) {
+		s = strings.ReplaceAll(s, `\`, `\\`)
+		s = strings.ReplaceAll(s, "_", `\_`)
+	}
+	return s
 }
 
 func Contains(elems []string, elem string) bool {
